@@ -15,9 +15,9 @@ type AttrVal struct {
 	Arr []AttrVal // array value (non-nil, possibly empty)
 }
 
-func Str(s string) AttrVal        { return AttrVal{S: s} }
-func Arr(v ...AttrVal) AttrVal    { return AttrVal{Arr: append([]AttrVal{}, v...)} }
-func (v AttrVal) IsArr() bool     { return v.Arr != nil }
+func Str(s string) AttrVal     { return AttrVal{S: s} }
+func Arr(v ...AttrVal) AttrVal { return AttrVal{Arr: append([]AttrVal{}, v...)} }
+func (v AttrVal) IsArr() bool  { return v.Arr != nil }
 func (v AttrVal) Canon() string {
 	if !v.IsArr() {
 		return fmt.Sprintf("s:%q", v.S)
@@ -106,8 +106,8 @@ type Stmt struct {
 	Endpoint string
 	Args     []string
 	Attrs    []Attr
-	Kids     []*Stmt   // block body
-	Cases    []*Stmt   // oneof: each case is a Stmt{Kind:"case", Text:label, Kids}
+	Kids     []*Stmt // block body
+	Cases    []*Stmt // oneof: each case is a Stmt{Kind:"case", Text:label, Kids}
 }
 
 type Endpoint struct {
